@@ -148,7 +148,10 @@ PATHY_KEYS = ["path", "path.length", "\\path", "xpath", "a\\path", "path.first.l
 
 
 def pathy_literal(r):
-    d = {r.choice(PATHY_KEYS): G.json_value(r, 1)}
+    d = {}
+    if r.pct() < 30:
+        d[r.choice(["b", "a", "z z"])] = G.json_value(r, 0)  # a plain key FIRST, the path-looking key after it
+    d[r.choice(PATHY_KEYS)] = G.json_value(r, 1)
     if r.coin(40):
         d[r.choice(["b", "path", "\\path.x"])] = G.json_value(r, 0)
     return d
